@@ -130,6 +130,14 @@ func (w *World) injectWrite() error {
 		}
 	}()
 	if w.injectOneFrame { // a one-page transaction: exactly one WAL frame
+		if w.injectTruncate { // INJT: the application first checkpoints with TRUNCATE (the WAL file is emptied), then commits
+			w.closeReader()
+			var a, b, c int
+			if err := w.injConn.QueryRow("PRAGMA wal_checkpoint(TRUNCATE)").Scan(&a, &b, &c); err != nil {
+				return err
+			}
+			w.trace = append(w.trace, fmt.Sprintf("INJT-ckpt[%d,%d,%d]", a, b, c))
+		}
 		w.version++
 		q := "UPDATE ver SET n=?"
 		if w.atPoint && w.hasOnef { // a point injection writes a DIFFERENT page than a log-record injection of the same op
@@ -139,7 +147,7 @@ func (w *World) injectWrite() error {
 			w.version--
 			return err
 		}
-		if w.injectComposite {
+		if w.injectComposite && !w.injectTruncate {
 			w.closeReader()
 			var a, b, c int
 			if err := w.injConn.QueryRow("PRAGMA wal_checkpoint(PASSIVE)").Scan(&a, &b, &c); err != nil {
@@ -180,6 +188,7 @@ func (w *World) injectWrite() error {
 
 type World struct {
 	flakyL0Lists int // the next newLitestream gets a client whose first k level-0 listings fail
+	injectTruncate bool // the point injection in progress is INJT (application TRUNCATE checkpoint, then a one-frame commit)
 	injectIn         int // commit an application transaction at the n-th next log record (0 = disarmed)
 	injecting        bool
 	injConn          *sql.DB
@@ -1187,6 +1196,15 @@ var ckptWindowScripts = func() (l [][2]string) {
 		l = append(l, [2]string{"reset-ahead:" + mode,
 			fmt.Sprintf("OPEN S W W W SW W S W S CK-%s W RESET W SW", mode)})
 	}
+	// the copy that follows a FULL/RESTART checkpoint must not take a WAL that was TRUNCATED (and written
+	// again) since the header re-read for an expected truncation: the process is killed right after that
+	// copy (20b75a5 clears syncedToWALEnd for it; seed C03e keeps the flag)
+	for _, mode := range []string{"FULL", "RESTART"} {
+		for _, k := range []int{2, 3, 4, 5, 6} {
+			l = append(l, [2]string{"ckpt-post-copy-truncate-kill:" + mode,
+				fmt.Sprintf("OPEN S W W SW LR+ INJX=%d INJT=pt.ckpt.postcopy KILLP=pt.ckpt.postcopied CK-%s OPEN S SW W SW", k, mode)})
+		}
+	}
 	// error exit after the PRAGMA: a commit lands between the pre-checkpoint copy and the PRAGMA, and the
 	// sequence bump fails busy (the application holds the write lock with a one-page transaction): the
 	// call returns an error; the next sync must not lose the commit (TRUNCATE: fixed in /repo 67a6f3f —
@@ -1359,7 +1377,7 @@ func runScriptAs(rc *Recorder, dir string, rng *rand.Rand, script, cfgs, scenari
 	defer func() { w.closeReader(); w.closeWT(false); w.closeWTConn(); w.app.Close() }()
 	w.scenario = scenario
 	w.scripted = true
-	if strings.Contains(script, "INJP=") || strings.Contains(script, "INJW=") {
+	if strings.Contains(script, "INJP=") || strings.Contains(script, "INJW=") || strings.Contains(script, "INJT=") {
 		// a second one-page table, so that two injected one-frame commits touch different pages
 		if _, err := w.app.Exec("CREATE TABLE onef(id INTEGER PRIMARY KEY, n INTEGER)"); err != nil {
 			return err
@@ -1469,6 +1487,30 @@ func runScriptAs(rc *Recorder, dir string, rng *rand.Rand, script, cfgs, scenari
 					res = "busy"
 				}
 				w.trace = append(w.trace, fmt.Sprintf("INJ@%s:%s", ev, res))
+			}
+			nextPoint = true
+			continue
+		case strings.HasPrefix(op, "INJT="): // at a verifTrace point of the NEXT litestream op: the application checkpoints with TRUNCATE and then commits one frame
+			tpt := strings.TrimPrefix(op, "INJT=")
+			w.injectOneFrame = true
+			prevHook := litestream.VerifTracePoint
+			tArmed := true
+			litestream.VerifTracePoint = func(o any, ev string) {
+				if prevHook != nil {
+					prevHook(o, ev)
+				}
+				if ev != tpt || w.injecting || !tArmed || !w.pointArmed {
+					return
+				}
+				tArmed = false
+				w.injecting, w.atPoint, w.injectTruncate = true, true, true
+				err := w.injectWrite()
+				w.injecting, w.atPoint, w.injectTruncate = false, false, false
+				res := "ok"
+				if err != nil {
+					res = "busy"
+				}
+				w.trace = append(w.trace, fmt.Sprintf("INJT@%s:%s", ev, res))
 			}
 			nextPoint = true
 			continue
